@@ -124,3 +124,7 @@ def kf_tok_unterm_writes_past(case, o, kind, cfg, consts):
     rest = m['chars'][start:] if start >= 0 else []
     in_token_phase = any(ch not in D for ch in rest) and len(D) > 0
     return in_token_phase or case.func == 'wcstok_seq'
+
+@pred
+def kf_strzero_unprotected(case, o, kind, cfg, consts):
+    return False   # a source-shape finding (no failing input): reported by check_C18 from the regenerated shape
